@@ -849,6 +849,16 @@ fn step<'b, T: Elem + Clone + PartialEq>(st: &mut St, l: &mut Live<'b, T>, op: &
                         st.fail("C16/partition", format!("{what}: split-off part holds {got:?}, expected the range {b:?}"));
                     }
                     l.m = m2;
+                    // the two parts are separate blocks (checked before the capacity rule: an overlap is the C01 view
+                    // of the same mistake)
+                    if !T::ZST && p.capacity() > 0 && l.v.capacity() > 0 {
+                        let esz = std::mem::size_of::<T>();
+                        let (a0, a1) = (p.ptr(), p.ptr() + p.capacity() * esz);
+                        let (b0, b1) = (l.v.ptr(), l.v.ptr() + l.v.capacity() * esz);
+                        if a0 < b1 && b0 < a1 {
+                            st.fail("C16/parts-disjoint", format!("{what}: the buffers of the two parts overlap ({a0:#x}..{a1:#x} / {b0:#x}..{b1:#x})"));
+                        }
+                    }
                     // capacities add up
                     if !T::ZST && matches!(kind, KindId::Fixed | KindId::Vec) && p.capacity() + l.v.capacity() != cap0 {
                         st.fail("C16/capacity-sum", format!("{what}: capacities {} + {} != original {cap0}", l.v.capacity(), p.capacity()));
@@ -1655,7 +1665,7 @@ fn concrete_c15(st: &mut St, h: &Hdr) {
                     let before = probe(&*sc, info.up);
                     let ok = r0.b(14) % 3 != 0;
                     let try_ = r0.b(9) & 1 == 1;
-                    let var = r0.b(15) % 4;
+                    let var = r0.b(15) % 6;
                     st.ops += 1;
                     st.mixh(0x7717 ^ (var as u64) << 16 ^ (ok as u64) << 24);
                     macro_rules! tw {
@@ -1684,6 +1694,8 @@ fn concrete_c15(st: &mut St, h: &Hdr) {
                         0 => tw!(u64, u32, 0x1122_3344_5566_7788u64, 7u32),
                         1 => tw!([u32; 3], [u32; 40], [1u32, 2, 3], [9u32; 40]),
                         2 => tw!(u8, u64, 0x5au8, 1u64),
+                        3 => tw!([u8; 16], u8, [0x6bu8; 16], 2u8),
+                        4 => tw!([u16; 4], u32, [7u16, 8, 9, 10], 2u32),
                         _ => tw!([u8; 5], u8, [1u8, 2, 3, 4, 5], 2u8),
                     };
                     let what2 = format!("alloc_try_with_mut variant {var} (closure returns {})", if ok { "Ok" } else { "Err" });
@@ -1825,6 +1837,15 @@ fn run_mut<'a, T: Elem + Clone + PartialEq>(st: &mut St, h: &Hdr, arena: &mut (d
 }
 
 impl Engine for CollEngine {
+    fn owns(&self, prop: &str, oracle: &str) -> bool {
+        // collection buffers are blocks in the sense of C01 / C02: overlapping buffers of live parts violate C01,
+        // a sibling whose contents change through an operation on another part violates C02
+        oracle.starts_with(prop)
+            || oracle.starts_with("panic")
+            || oracle.starts_with("crash")
+            || (prop == "C01" && oracle == "C16/parts-disjoint")
+            || (prop == "C02" && oracle == "C16/sibling-changed")
+    }
     fn name(&self) -> &'static str {
         "B/collections"
     }
